@@ -47,6 +47,17 @@ for _f, _g in zip(RULES, _SHARED):
     _f.__name__ = _g.__name__
 RULES += [T.rule_flatten, T.rule_mangle, T.rule_index_order, T.rule_deq, T.rule_wire_forms]
 
+
+def rule_typecheck_bounds(repo):
+    """the emitter trusts the type checker: a constant index / part-select that reaches it is in range and node.Type is the width
+    the simulation uses (a negative constant index would be emitted as a wrapped unsigned index).  Shared with C10
+    (R-C10-widthtable: index / slice bound checks and result widths)."""
+    from rules.c10 import rule_widthtable
+    return rule_widthtable(repo)
+
+
+RULES.append(rule_typecheck_bounds)
+
 # ---------------------------------------------------------------------------
 YB1, YB2, YB3, YB4, YB5 = T.YS_B[1:6]
 YS1, YS2, YS3, YS4 = T.YS_S[1:5]
@@ -138,6 +149,11 @@ MUTANTS = [
        '_subcomp_port_gen( obj[0], c_id+"__"+str(i), n_dim[1:], port_decls )', 'R-tr-modname'),
     _m('subcomp-array-name-from-array-type', YS4, "          c_name = s.rtlir_tr_component_unique_name( obj_c_rtype )", "          c_name = s.rtlir_tr_component_unique_name( c_rtype )",
        'R-tr-modname'),
+    _m('yosys-module-name-fast-path-same-class', YS4, "          obj_c_rtype = s.tr_top.get_metadata( RTLIRPass.rtlir_getter ).get_rtlir( obj )\n",
+       "          if type(obj) is type(c_rtype.obj):\n            obj_c_rtype = c_rtype\n          else:\n            obj_c_rtype = s.tr_top.get_metadata( RTLIRPass.rtlir_getter ).get_rtlir( obj )\n",
+       'R-tr-modname'),
+    _m('chained-tmpvar-assignment-nonblocking', T.GEN[2], "    if has_tmpvar:\n      return True\n    else:\n      return super().get_blocking(node, bir_node)",
+       "    if has_tmpvar and len(bir_node.targets) == 1:\n      return True\n    else:\n      return super().get_blocking(node, bir_node)", 'R-tr-assign'),
     _m('yosys-loop-bounds-swapped', YB2, "v = loop_var, s = start, t = end, stp = step_abs,", "v = loop_var, s = end, t = start, stp = step_abs,", 'R-tr-for'),
     _m('yosys-block-drops-inherited-body', YB1, "    upblk = super().visit_CombUpblk( node )\n    return s.get_loopvars() + upblk",
        "    upblk = super().visit_CombUpblk( node )\n    return upblk + s.get_loopvars()", 'R-tr-assign'),
